@@ -113,7 +113,9 @@ class Interpolator:
         else:
             self.xs = (np.array(fls),)
 
-            # Output values.
+            # Output values, in the same (ascending flight level) order as the
+            # coordinate values: the table rows may come in any order.
+            df = df.sort_values('fl')
             self.tas = df.tas.values
             self.rocd = df.rocd.values
             self.fuel_flow = df.fuel_flow.values
@@ -121,6 +123,14 @@ class Interpolator:
     def __call__(self, fl: float, mass: float) -> Performance:
         """Perform bilinear interpolation to get performance values at given
         flight level and aircraft mass."""
+
+        # A tabulated flight level that was converted to an altitude and back
+        # can miss the first or last table level by floating-point round-off:
+        # such a state is on the edge of the table, not outside it.
+        fls = self.xs[0]
+        for edge in (fls[0], fls[-1]):
+            if fl != edge and np.isclose(fl, edge, rtol=1e-9, atol=1e-9):
+                fl = float(edge)
 
         if self.n_masses > 1:
             x = (fl, mass)
